@@ -586,11 +586,31 @@ pub fn execute_pair(plan: &Plan, verbose: bool) -> Outcome {
         }
         // (first the boundaries met while a stored matched-blocks record is not in memory - the
         // state after a restart or a rollback, in which the next operation recovers or discards it)
-        let mut names: Vec<(u64, u64, String)> = count.into_iter().map(|(n, c)| (if n.contains("[R-") { 0 } else { 1 }, c, n)).collect();
+        // then by how rare the *site* is in this history (whatever the state), then the state
+        let mut per_site: BTreeMap<String, u64> = BTreeMap::new();
+        for (n, c) in count.iter() {
+            *per_site.entry(n.split('[').next().unwrap_or("").to_string()).or_insert(0) += *c;
+        }
+        let mut names: Vec<(u64, u64, u64, String)> = count
+            .into_iter()
+            .map(|(n, c)| {
+                let site = per_site.get(n.split('[').next().unwrap_or("")).cloned().unwrap_or(c);
+                (if n.contains("[R-") { 0 } else { 1 }, site, c, n)
+            })
+            .collect();
         names.sort();
-        // (the paired operation takes part in the choice, so that the thirteen cases of one slot
-        // walk thirteen different (site, state) names instead of sharing one)
-        let name = names[(((slot / 2) * 13 + op) % names.len() as u64) as usize].2.clone();
+        // The paired operation takes part in the choice. Even operations (set_scripts(all),
+        // set_scripts(delete), the readers, the BlockFilters and proof handlers) all meet the
+        // rarest site of the history (a fork rollback's lock is taken once). Odd operations (the
+        // other set_scripts variants, SendLastState and SendBlock handlers) share three names of
+        // the list that puts the not-yet-recovered state first.
+        let name = if op % 2 == 0 {
+            let mut by_rarity: Vec<(u64, u64, String)> = names.iter().map(|(_, site, c, n)| (*site, *c, n.clone())).collect();
+            by_rarity.sort();
+            by_rarity[((slot / 2) % by_rarity.len() as u64) as usize].2.clone()
+        } else {
+            names[(((slot / 2) * 3 + (op / 2) % 3) % names.len() as u64) as usize].3.clone()
+        };
         let by_site: Vec<(u64, u64, String)> = ks
             .iter()
             .filter(|(k, _, _)| base.bound_names.get(*k as usize - 1).map(|n| *n == name).unwrap_or(false))
